@@ -287,6 +287,9 @@ func runC16As(c *Ctx, P string) {
 		}
 		c.verdictIf(okRet, P, "swap", "fn=UpdatePolicyOptions no-return-under-write-lock", p.pos(upd.Pos()), "write lock released on every return", "UpdatePolicyOptions can return while still holding policyRWMu.Lock: every later request is refused forever")
 		runC16StoresOnSuccess(c, P, upd)
+		if P == "C16" {
+			runC16LimiterFresh(c, P, upd)
+		}
 
 		// --- snapshot
 		fl := newFlow(p)
@@ -359,6 +362,7 @@ func runC16As(c *Ctx, P string) {
 		}
 	}
 	inExtent := p.reachableFrom(workers)
+	runC16NoDetachedWork(c, P, inExtent)
 	nRead := map[string]int{}
 	for _, fn := range p.SrcFuncs {
 		for _, b := range fn.Blocks {
